@@ -167,4 +167,21 @@ def modifySubs (f : Site → Option Site) : List (Path × Site) → Path → Lis
     else (modifySubs f rest k ks).map (fun rest' => (q, s) :: rest')
 end
 
+/-- one registration call on the nested site object found at `addr` below the root -/
+inductive Reg where
+  | addRes (addr : List Path) (path : Path) (r : Res)
+  | addSite (addr : List Path) (path : Path) (t : Site)
+  | remove (addr : List Path) (path : Path)
+
+/-- `none`: the call raises (`KeyError` of `remove_resource`) or `addr` names no Site -/
+def Site.reg (s : Site) : Reg → Option Site
+  | .addRes a p r => s.modifyAt (Site.addResource p r) a
+  | .addSite a p t => s.modifyAt (Site.addSite p t) a
+  | .remove a p => s.modifyAt (Site.remove p) a
+
+/-- a whole registration history; a raising call leaves the tree as it was -/
+def Site.regs (s : Site) : List Reg → Site
+  | [] => s
+  | r :: rest => ((s.reg r).getD s).regs rest
+
 end Aiocoap.Apps
